@@ -135,12 +135,15 @@ class Lc:
         self.sympy = sympy
         self.state = state
 
-    def analyse(self, case, spoint, solver='DM', convention='passive', subkey=None):
-        """returns dict(V={node: (re,im)}, J={branch: ...}, I={cpt: ...}, key=...) or raises"""
+    def analyse(self, case, spoint, solver='DM', convention='passive', subkey=None, cct=None):
+        """returns dict(V={node: (re,im)}, J={branch: ...}, I={cpt: ...}, key=...) or raises.
+        `cct`: an existing Circuit object (with a history of queries and edits) to be asked instead of a fresh one"""
         S = self.sympy
         self.state.current_sign_convention = convention
-        cct = self.lcapy.Circuit('\n'.join(case['lcapy']))
-        cct.solver_method = solver
+        fresh = cct is None
+        if fresh:
+            cct = self.lcapy.Circuit('\n'.join(case['lcapy']))
+            cct.solver_method = solver
         keys = list(cct.sub.keys())
         if subkey is not None:
             key = subkey(keys)
@@ -154,9 +157,10 @@ class Lc:
         mna = sub.mna
         # `cct.solver_method` does not reach the sub-netlists (`expand()` builds them from a new Netlist with the
         # configured default), so the method is set where MNA._solve reads it; nothing has been solved yet
-        mna.solver_method = solver
-        if hasattr(mna, '_Vdict') or hasattr(mna, '_Idict'):
-            raise ValueError('mna already solved before the solver method was set')
+        if fresh:
+            mna.solver_method = solver
+            if hasattr(mna, '_Vdict') or hasattr(mna, '_Idict'):
+                raise ValueError('mna already solved before the solver method was set')
         subs = {}
         for name, val in case['subs'].items():
             subs[name] = S.Rational(val.numerator, val.denominator)
@@ -240,6 +244,31 @@ def model_expansion(rep):
             ns.append(nn)
         out.append((name, ty, ns, [Fraction(a.strip('{}')) for a in args.split(',') if a != '']))
     return out
+
+
+def api_solution(L, cct, nodes, branches, analysis, spoint):
+    """node voltages and branch currents of an existing Circuit object through the PUBLIC API (`cct[n].V(s)`, `cct.X.I(s)`;
+    time-domain constants for dc), exact"""
+    S = L.sympy
+    L.state.current_sign_convention = 'passive'
+
+    def val(e):
+        x = e.sympy if hasattr(e, 'sympy') else S.sympify(e)
+        rep = {q: S.Rational(spoint.numerator, spoint.denominator) for q in x.free_symbols if q.name == 's' and spoint is not None}
+        x = x.subs(rep)
+        if x.free_symbols:
+            raise ValueError('free symbols left: %s' % x.free_symbols)
+        g = gq(x)
+        if g is None:
+            raise ValueError('not Gaussian rational: %s' % x)
+        return norm(g)
+    sv_ = L.lcapy.s
+    V, J = {}, {}
+    for n in nodes:
+        V[n] = val(cct[n].V(sv_)) if analysis != 'dc' else val(cct[n].v)
+    for b in branches:
+        J[b] = val(cct[b].I(sv_)) if analysis != 'dc' else val(cct[b].i)
+    return V, J
 
 
 def sign_for(convention, is_source):
@@ -336,6 +365,15 @@ def run(chk, replay=None):
 
     state = {'stream': 'replay', 'solver_idx': 0}
 
+    def internal_diff(level, detail):
+        """a difference at an INTERNAL level (assembled matrix entries, order of the unknowns, expansion text): recorded as a
+        diagnostic that localises a problem, never an alarm by itself (DESIGN 2.3(b)); only the Laws oracle, the reported
+        V / I, or a broken theorem can raise one"""
+        chk.count('internal-difference', level)
+        d = chk.coverage['correspondence']['diagnostics']
+        if len(d) < 12:
+            d.append({'level': level, 'detail': detail})
+
     def one(case, spoint, idx):
         nonlocal n_cex
         a = case['analysis']
@@ -369,8 +407,7 @@ def run(chk, replay=None):
                     chk.coverage['correspondence']['compared'] += 1
                     me_ = model_expansion(erep)
                     if le_ != me_:
-                        chk.coverage['correspondence']['disagreements'] += 1
-                        disagreements.append({'case': jcase, 'expand': {'lcapy': str(le_), 'model': str(me_)}})
+                        internal_diff('expand', {'case': jcase, 'lcapy': str(le_), 'model': str(me_)})
                 except common.TimeLimit:
                     chk.count('expand', 'time-limit')
                 except Exception as e:   # noqa
@@ -397,15 +434,12 @@ def run(chk, replay=None):
             if mu is not None:
                 chk.count('alloc', 'compared')
                 if mu != list(mat[3]):
-                    chk.coverage['correspondence']['disagreements'] += 1
-                    disagreements.append({'case': jcase, 'spoint': fstr(spoint) if spoint is not None else None,
-                                          'unknown_branch_currents': {'lcapy': list(mat[3]), 'model': mu}})
+                    internal_diff('unknown_branch_currents', {'case': jcase, 'lcapy': list(mat[3]), 'model': mu})
             if la != ma or lz != mz:
-                chk.coverage['correspondence']['disagreements'] += 1
                 da = sorted(str(k_) for k_ in set(la) ^ set(ma)) + sorted('%s: lcapy %s model %s' % (k_, la[k_], ma[k_]) for k_ in set(la) & set(ma) if la[k_] != ma[k_])
                 dz = sorted('%s: lcapy %s model %s' % (k_, lz.get(k_), mz.get(k_)) for k_ in set(lz) | set(mz) if lz.get(k_) != mz.get(k_))
-                disagreements.append({'case': jcase, 'spoint': fstr(spoint) if spoint is not None else None,
-                                      'matrix_A_differs': da[:6], 'matrix_Z_differs': dz[:6]})
+                internal_diff('matrix', {'case': jcase, 'spoint': fstr(spoint) if spoint is not None else None,
+                                         'matrix_A_differs': da[:6], 'matrix_Z_differs': dz[:6]})
         try:
             with common.time_limit(60):
                 got = L.analyse(case, spoint, solver, conv)
@@ -657,6 +691,91 @@ def run(chk, replay=None):
                                    'Lcapy solution of the %s part of a multi-term source violates %s' % (an, verdict))
             else:
                 chk.count('oracle', 'tone-laws-ok')
+
+    # ---- a Circuit object with a history: solved once, then EXTENDED (several lines in one `add` call, or line by line),
+    # then asked again.  What it reports must obey the laws of the netlist it now holds.
+    def sequence(base, ext, mode, analysis, spoint):
+        nonlocal n_cex
+        an = 'dc' if analysis == 'dc' else '%s %s' % (analysis, fstr(spoint))
+        full = list(base) + list(ext)
+        body = ' || '.join(full)
+        rep = drv.ask1('mna.solve %s || %s' % (an, body))
+        chk.count('sequence', mode)
+        case = {'analysis': analysis, 'lines': full, 'lcapy': full, 'subs': {}, 'omega': Fraction(1)}
+        jin = {'sequence': {'base': list(base), 'added': list(ext), 'mode': mode, 'analysis': analysis},
+               'spoint': fstr(spoint) if spoint is not None else None}
+        chk.case((tuple(full), an, mode), rep.startswith('ok'))
+        try:
+            with common.time_limit(60):
+                cct = L.lcapy.Circuit('\n'.join(base))
+                first = [l.split()[1] for l in base if l.split()[1] != '0'][0]
+                cct[first].V                                   # solves the original netlist (and caches)
+                if mode == 'multi-line':
+                    cct.add('\n'.join(ext))
+                else:
+                    for l in ext:
+                        cct.add(l)
+                # ... and asked again, through the public API, on the SAME object
+                mrep = parse_reply(rep) if rep.startswith('ok') else None
+                if mrep is None:
+                    chk.count('sequence', 'model-not-solvable')
+                    return
+                gv, gj = api_solution(L, cct, [n_ for n_ in mrep['V']], [b_ for b_ in mrep['J']], analysis, spoint)
+                got = {'V': gv, 'J': gj}
+        except common.TimeLimit:
+            chk.count('lcapy-error', 'sequence:time-limit')
+            return
+        except Exception as e:   # noqa
+            chk.count('lcapy-error', 'sequence:' + type(e).__name__ + ':' + str(e)[:40])
+            return
+        vs = ' '.join('%s=%s' % (n, fstr(v[0]) + (',' + fstr(v[1]) if v[1] != 0 else '')) for n, v in got['V'].items())
+        js = ' '.join('%s=%s' % (n, fstr(v[0]) + (',' + fstr(v[1]) if v[1] != 0 else '')) for n, v in got['J'].items())
+        verdict = drv.ask1('mna.laws %s || %s || V %s J %s' % (an, body, vs, js))
+        if verdict.startswith('error'):
+            chk.count('oracle', 'sequence-front-end:' + verdict[:40])
+        elif verdict != 'ok':
+            n_cex += 1
+            chk.counterexample({'kind': 'laws-after-edit', 'clause': verdict.split()[0], 'analysis': analysis},
+                               {'input': jin, 'lcapy': {'V': vs, 'J': js}, 'spec': verdict,
+                                'note': 'Circuit(base); query; add(added); query again: judged against the laws of base + added'},
+                               'after the netlist was extended on the same Circuit object the reported solution violates %s' % verdict)
+        else:
+            chk.count('oracle', 'sequence-laws-ok')
+        if rep.startswith('ok'):
+            model = parse_reply(rep)
+            chk.coverage['correspondence']['compared'] += 1
+            diffs = [('V', n, v, model['V'][n]) for n, v in got['V'].items() if n in model['V'] and model['V'][n] != v]
+            if diffs:
+                chk.coverage['correspondence']['disagreements'] += 1
+                disagreements.append({'sequence': jin, 'diffs': [str(d) for d in diffs[:4]]})
+
+    def random_sequence(k):
+        analysis = rng.choice(['dc', 's'])
+        case = gen_netlist.random_case(rng, analysis=analysis, max_nodes=4, ext=False)
+        spoint = Fraction(rng.randint(1, 12), rng.randint(1, 5)) if analysis != 'dc' else None
+        base = case['lines']
+        nodes = sorted({t for l in base if l.split()[0][0] in 'RCLVI' and not l.startswith('K') for t in l.split()[1:3]})
+        if len(nodes) < 2:
+            return
+        ext = []
+        for j in range(2):
+            a_, b_ = rng.sample(nodes, 2)
+            if rng.random() < 0.7:
+                ext.append('Rx%d %s %s %s' % (j + 1, a_, b_, gen_netlist.fs(gen_netlist.rv(rng))))
+            else:
+                ext.append('Ix%d %s %s %s' % (j + 1, a_, b_, ('dc %s' if analysis == 'dc' else 'step %s') % gen_netlist.fs(gen_netlist.sv(rng))))
+        sequence(base, ext, 'multi-line' if k % 2 == 0 else 'line-by-line', analysis, spoint)
+
+    if replay:
+        import json
+        rc = json.load(open(replay))
+        sq = rc.get('input', {}).get('sequence')
+        if sq:
+            sequence(sq['base'], sq['added'], sq['mode'], sq['analysis'],
+                     Fraction(rc['input']['spoint']) if rc['input'].get('spoint') else None)
+    else:
+        for k in range(10 if quick else 80):
+            random_sequence(k)
 
     if not replay:
         chk.coverage['timing']['random_s'] = round(_time.time() - t_start, 1)
